@@ -8,6 +8,8 @@ import (
 	"fmt"
 	"github.com/johannesboyne/gofakes3"
 	"io"
+	"net/http"
+	"net/http/httptest"
 	"strings"
 	"testing"
 	"time"
@@ -308,7 +310,65 @@ func c11Overlap(e *c11Env) (ds []disc) {
 	return ds
 }
 
+// c11RealServer: ranged reads over a real connection (net/http's own response writer decides the
+// framing there: a handler that leaves Content-Length out gets a chunked response once the body
+// outgrows the sniffing buffer). The Content-Length header must be there and equal the bytes sent.
+func c11RealServer(k backends.Kind) (ds []disc, n int) {
+	st := backends.Must(k, backends.Options{})
+	defer st.Close()
+	if err := ensureBucket(st, "bk0"); err != nil {
+		panic(err)
+	}
+	srv := httptest.NewServer(st.Handler)
+	defer srv.Close()
+	for _, size := range []int{100, 511, 512, 513, 8192, 70000} {
+		body := c11Body(size)
+		key := fmt.Sprintf("real-%d", size)
+		if r := put(st, "bk0", key, body); r.Status != 200 {
+			panic("harness: " + r.String())
+		}
+		for _, h := range []string{"", "bytes=0-0", "bytes=0-", "bytes=1-", "bytes=10-521", "bytes=10-520", fmt.Sprintf("bytes=-%d", size-1), fmt.Sprintf("bytes=-%d", size/2), "bytes=0-99999999", fmt.Sprintf("bytes=%d-", size/2), fmt.Sprintf("bytes=%d-%d", size-1, size+5)} {
+			v := oracle.Range(int64(size), h)
+			if h != "" && !v.AllowRange {
+				continue
+			}
+			n++
+			rq, _ := http.NewRequest("GET", srv.URL+"/bk0/"+key, nil)
+			if h != "" {
+				rq.Header.Set("Range", h)
+			}
+			resp, err := http.DefaultClient.Do(rq)
+			if err != nil {
+				ds = append(ds, dsc("real-server-read", "backend=%s size=%d Range=%q over a real connection: %v", k, size, h, err)...)
+				continue
+			}
+			got, err := io.ReadAll(resp.Body)
+			resp.Body.Close()
+			want := body
+			if h != "" {
+				want = body[v.First : v.Last+1]
+			}
+			cl := resp.Header.Get("Content-Length")
+			switch {
+			case err != nil || !bytes.Equal(got, want):
+				ds = append(ds, dsc("real-server-bytes", "backend=%s size=%d Range=%q over a real connection: %d bytes (err %v), want %d", k, size, h, len(got), err, len(want))...)
+			case cl != fmt.Sprint(len(want)) || len(resp.TransferEncoding) > 0:
+				ds = append(ds, dsc("real-server-content-length", "backend=%s size=%d Range=%q over a real connection: Content-Length %q, Transfer-Encoding %v; %d bytes were sent", k, size, h, cl, resp.TransferEncoding, len(got))...)
+			}
+		}
+	}
+	return ds, n
+}
+
 func c11Replay(check string, raw json.RawMessage) ([]disc, error) {
+	if check == "real-server" {
+		var cs c11Case
+		if err := json.Unmarshal(raw, &cs); err != nil {
+			return nil, err
+		}
+		ds, _ := c11RealServer(cs.Backend)
+		return ds, nil
+	}
 	if check == "range-overlap" {
 		var cs c11Case
 		if err := json.Unmarshal(raw, &cs); err != nil {
@@ -431,6 +491,12 @@ func c11Run(t *testing.T, c *evid.Collector) {
 			cs := c11Case{k, -1000, "overlapping Backend.GetObject calls"}
 			c.Case(evid.FP(string(k), "overlap"), true, func() interface{} { return cs }, "backend:"+string(k), "src:overlapping-api-reads")
 			report(c, "range-overlap", ds, cs)
+		}
+		for _, k := range kinds {
+			ds, nreq := c11RealServer(k)
+			cs := c11Case{k, -1002, "ranged reads over a real connection"}
+			c.Case(evid.FP(string(k), "real-server"), nreq > 0, func() interface{} { return cs }, "backend:"+string(k), "src:real-server")
+			report(c, "real-server", ds, cs)
 		}
 		c.Exhaustive(false) // the small scope is complete, the property's domain is not
 		c.Set("exhaustive_scope", fmt.Sprintf("sizes 0..%d x {bytes=F-L, bytes=F-, bytes=-S : F,L,S in -1..%d} on %d configurations: complete", n, n+2, len(kinds)))
